@@ -516,6 +516,32 @@ Op perturbOp(Rng &r, int H) {
   return op;
 }
 
+// client ops that change the circuit between stages (cell expansion, net
+// weights, orientations): later stages must cope with whatever they leave
+Op clientOp(Rng &r) {
+  Op op;
+  switch (r.below(4)) {
+    case 0:
+      op.kind = OP_EXPAND_DENSITY;
+      op.fargs = {r.real(0.3, 0.95), r.chance(0.5) ? 0.0 : r.real(0.0, 1.0), r.chance(0.5) ? 1.0 : r.real(0.05, 1.0)};
+      break;
+    case 1:
+      op.kind = OP_EXPAND_FACTOR;
+      op.args = {(long long)r.below(1000000)};
+      op.fargs = {r.real(1.0, 3.0), r.real(0.5, 1.0), r.chance(0.5) ? 0.0 : r.real(0.0, 1.0)};
+      break;
+    case 2:
+      op.kind = OP_SET_WEIGHTS;
+      op.args = {(long long)r.below(1000000)};
+      break;
+    default:
+      op.kind = OP_SET_ORIENT;
+      op.args = {(long long)r.below(1000000)};
+      break;
+  }
+  return op;
+}
+
 // --------------------------------------------------------------- profiles --
 Plan base(const std::string &profile, uint64_t seed) {
   Plan p;
@@ -736,6 +762,7 @@ Plan genFrame(const std::string &profile, uint64_t seed, int tier) {
     }
     p.ops.push_back(op);
     if (ro.chance(0.2)) p.ops.push_back(perturbOp(ro, b.H));
+    if (ro.chance(0.12)) p.ops.push_back(clientOp(ro));
   }
   return p;
 }
@@ -781,6 +808,7 @@ Plan genCrash(const std::string &profile, uint64_t seed, int tier) {
   for (int i = 0; i < nOps; ++i) {
     int stage = (int)ro.below(3);
     p.ops.push_back(stageOp(ro, stage, ro.chance(0.4), reord, ro.chance(0.5)));
+    if (ro.chance(0.15)) p.ops.push_back(clientOp(ro));
   }
   if (ro.chance(0.5)) {
     // the canonical flow
